@@ -27,7 +27,7 @@ APPLIES = {
     "page-type": ["zero", "other-kind", "random-byte"], "master-sql": ["text-garbage", "zero", "cut"],
     "header-field": ["random-byte", "zero", "max32"], "free-bytes": ["random-byte", "zero", "max32"], "truncate": ["cut"],
     "journal-bytes": ["random-byte", "text-garbage", "cut"],
-    "byte-sweep": ["zero", "max32", "plus-one", "minus-one", "huge-length"],
+    "byte-sweep": ["zero", "max32", "plus-one", "minus-one", "huge-length", "doubled"],
     "journal-header": ["zero", "plus-one", "minus-one", "doubled", "max32", "huge-length", "cut"],
 }
 
